@@ -131,8 +131,10 @@ def pivot_update(run, f, rule='R8.pivot'):
             if not group:
                 break
             ups.append((s2, group))
+        if not ups:
+            continue              # no rewrite of the located string follows: not an instance of this rule (random_pair changes the OTHER string: R8.flip)
         n += 1
-        if not ups or any(slot is None for _, grp in ups for slot, _ in grp):
+        if any(slot is None for _, grp in ups for slot, _ in grp):
             run.undecided(rule, f, st, 'the rewrite of the pivot letter after `%s = front(%s)` is not in a shape this rule reads' % (i, g))
             continue
         bad = None
@@ -246,8 +248,9 @@ def check(run):
         if pkg == 'pyclifford' or True:
             diag_guards(run, repo.func(urel, 'pauli_diagonalize1'))
             diag_guards(run, repo.func(urel, 'pauli_diagonalize2'))
-        pivot_update(run, repo.func(urel, 'pauli_diagonalize1'))
-        pivot_update(run, repo.func(urel, 'pauli_diagonalize2'))
+        # every place of the kernels module that rewrites a pivot letter after `i = front(g)` (also inside an extracted helper)
+        for q, fq in sorted(repo.modules[urel].funcs.items()):
+            pivot_update(run, fq)
         diag_kernel(run, repo.func(urel, 'pauli_diagonalize1'), ['g1'])
         diag_kernel(run, repo.func(urel, 'pauli_diagonalize2'), ['g1', 'g2'])
         K.product_sites(run, repo.func(urel, 'pauli_diagonalize1'), floor=2)
